@@ -29,6 +29,24 @@ This is a LATER round still: single-site slips in common paths have been tried m
      big-endian, high vectors, NMFI).
 Make each of your changes a different shape from this list.
 """
+if len(sys.argv) > 4 and sys.argv[4] == "hard3":
+    hard = True
+    HARD += """
+This is a LATER round still: single-site slips in common paths have been tried many times.  Aim for one of these shapes:
+ (a) a multi-step HISTORY (state left behind by one instruction / exception entry / return / instance, consumed later);
+ (b) TWO COOPERATING SITES, each of which looks fine alone;
+ (c) ONE specific value out of a large range (one register number, rotation, immediate, bit position, mode number,
+     region/descriptor index, alignment, list shape);
+ (d) rarely used encodings;  (e) rare configurations.
+Make each of your changes a different shape.  The following ideas have been used already - do NOT repeat them, find new
+mechanisms: memoising arm_expand_imm_c / thumb_expand_imm_c / decoded opcodes / arch_version / memory_system_architecture
+in a cache keyed without the carry flag, IT state or configuration; clearing ArmV6.base_register at a different time;
+the Registers.itstate_restored flag; a "last hit" cache in the memory hub; the frame test in ArmV6.current_cond; moving
+it_advance() between execute_instruction and take_svc/smc_exception; swapping the two halves of the CPSR.it accessor;
+alu_write_pc losing its instruction-set test; r_bank_select argument order; MPU region scan direction / DREGION start;
+enter_hyp_mode not using branch_to; WFE trap order; mem_u_with_priv_* passing the wrong privilege on the byte path;
+8-byte accesses split in two in the hub; RFE write-back after the CPSR write; SRS in Non-secure state.
+"""
 for l in open('/verif/properties.jsonl'):
     p = json.loads(l)
     if p['id'] == pid:
